@@ -115,22 +115,33 @@ def create_jobs(tier):
              "_obligation": "O7", "_covers": ["indexed"], "unwind": 120, "map_order": False}]
 
 
+UPDATE_REDIR = {k: v for k, v in _c20.API_REDIR.items() if not k.endswith(".updateIndexedDoc")}
+
+
+def update_jobs(tier):
+    return [{"id": "O8.update-keeps-the-index." + ("counter" if k else "lww"), "func": "VerifH_C07_UpdateKeepsIndex",
+             "conf": {"counter": k, "branchable": 0, "faults": 0, "dag": "", "orders": "all", "shortid": 0, "for": "C07"},
+             "_obligation": "O8", "_covers": ["updated"], "unwind": 120, "map_order": False} for k in (0, 1)]
+
+
 PROPERTY = {
     "id": "C07",
     "suites": [
         dict(_c09.PROPERTY["suites"][0], name="request", files=["zz_verif_query.go", "zz_verif_c08q.go"], jobs=request_jobs),
         dict(_c20.SAVE_SUITE, name="indexafterdata", jobs=create_jobs, redirects=_c20.API_REDIR, files=_c20.SAVE_FILES + ["zz_verif_c20api.go", "zz_verif_c07create.go"], common=["intrinsics", "kvmodel", "dagenv", "kvtxn"]),
+        dict(_c20.SAVE_SUITE, name="updateindex", jobs=update_jobs, redirects=UPDATE_REDIR, files=_c20.SAVE_FILES + ["zz_verif_c20api.go", "zz_verif_c07update.go"], common=["intrinsics", "kvmodel", "dagenv", "kvtxn"]),
         dict(_c02.SUITE, name="syncindex", jobs=sync_jobs, patches=SYNC_PATCHES,
              files=["zz_verif_env.go", "zz_verif_merge.go", "zz_verif_c07uniq.go", "zz_verif_c07maint.go"]),
         dict(_c02.SUITE, name="uniquewrite", jobs=uniq_jobs, files=["zz_verif_env.go", "zz_verif_merge.go", "zz_verif_c07uniq.go", "zz_verif_c07maint.go"]),{"name": "indexfetcher", "pkg": "internal/db/fetcher", "files": ["zz_verif_c03.go", "zz_verif_c07.go"],
                 "common": ["intrinsics", "kvmodel", "dagenv"], "jobs": jobs, "unwind": 40, "witnesses": {"quick": 6, "thorough": 16},
                 "overrides": {"github.com/sourcenetwork/defradb/client.CborNil": "bytes:f6"}}],
     "bounds": {"request level (O6)": "3 documents with age null or 0..3; one operator (quick: none, _eq, _gt, _le, _in, _nin; thorough: all eight) with symbolic operands; order none / ASC / DESC; with an order: limit and offset 0..2; with and without a secondary index on the field",
+               "update through the collection API (O8)": "1 document, index on one field: a string field (one letter of three) or an Int pncounter (created with 0..3, incremented by 0..3); one collection.Update carrying the whole document, only the other field, or only the indexed field",
                "index maintenance (O5)": "2 documents, 1-2 indexed nullable int fields with values null or 0..3, unique or not, directions symbolic, histories of 3-4 (thorough 4-5) Save/Update/Delete calls", "documents": 2, "kinds": "int in [-128,127] (key encoding at full width is C17), float64 (thorough), string <= 2 ASCII bytes, bool (thorough); every value may be null",
                "index": "single field or 2-field composite, asc/desc per field symbolic, unique or not", "filter": "one operator per indexed field from _eq,_ne,_gt,_ge,_lt,_le,_in(2),_nin(2); constants symbolic or null"},
     "assumptions": ["index entries have the shape written by collectionBaseIndex.getDocumentsIndexKey / makeUniqueKeyValueRecord (re-stated in the read harness with the real key encoder; for unique indexes the shape is pinned against the real write kernel by O4)",
                     "the store follows the corekv iterator contract (kvmodel)", "a unique index holds no two live documents with the same non-null tuple",
                     "the document filter is re-applied after the index fetch (a superset is harmless)"],
-    "outside_claim": ["index maintenance on create/update/delete/merge (client.Document)", "array and JSON indexes, _like family, relation indexes, _and/_or/_not nests",
+    "outside_claim": ["index maintenance on create/update/delete/merge beyond O5 (index objects, whole documents), O7 (index filled after the data) and O8 (one update through collection.Update): longer API histories, composite and unique indexes at that level, float counters", "array and JSON indexes, _like family, relation indexes, _and/_or/_not nests",
                       "the planner's choice of index", "getDocFieldValues (client.Document field access) in front of the unique write kernel"],
 }
